@@ -260,6 +260,21 @@ func (i *interpreter) hashValueTerm(id int) *Term {
 	return t
 }
 
+// hashRank is the symbolic position of an abstract hash in byte order (distinct per hash).
+func (i *interpreter) hashRank(id int) *Term {
+	name := fmt.Sprintf("hashrank!%d", id)
+	if t, ok := i.tc.varset[name]; ok {
+		return t
+	}
+	t := i.tc.Var(name, SInt)
+	for other := 1; other <= i.hashN; other++ {
+		if o, ok := i.tc.varset[fmt.Sprintf("hashrank!%d", other)]; ok && other != id {
+			i.assume(i.tc.Not(i.tc.Eq(t, o)), "distinct hash ranks")
+		}
+	}
+	return t
+}
+
 // compareElem orders two byte-like elements; ok=false if it needs a symbolic decision.
 func absRank(v value) (cls int, a, b int) {
 	switch x := v.(type) {
